@@ -342,6 +342,12 @@ def sessionCheckStrPrefix (cwd sp id : Str) : Bool :=
 def getFilePath (cwd sp id : Str) : Option Str :=
   if sessionCheck cwd sp id then some (sessionFile cwd sp id) else none
 
+/-- `_exists`: `canonical = os.path.join(os.path.abspath(self.storage_path), SESSION_PREFIX + id)` -
+    the spelling of the file name an id issued by this server has.  Another spelling that merely
+    normalises to the file of a live session (`<id>/`, `x/../session-<id>`) is an alias made up by the
+    client (a78b01e). -/
+def sessionCanonical (cwd sp id : Str) : Str := sessionFileRaw (abspath cwd sp) id
+
 /-- `_get_file_path` before the F32b repair: same test, but the UN-normalised name was returned. -/
 def getFilePathPreF32 (cwd sp id : Str) : Option Str :=
   if sessionCheck cwd sp id then some (sessionFileRaw sp id) else none
@@ -353,14 +359,17 @@ inductive SessOp where
   | exists_ | load | save | delete | acquireLock
   deriving Repr, DecidableEq
 
-/-- What one of the five methods does with the path (`none` = HTTPError 400, nothing touched).
-    `_exists` does not look at names ending in LOCK_SUFFIX (they are never session data). -/
+/-- What one of the five methods does with the path (`none` = HTTPError 400, nothing touched:
+    `_get_file_path` comes first in every method).  `_exists` answers False WITHOUT looking
+    (`path == canonical and not path.endswith(LOCK_SUFFIX) and os.path.exists(path)`) for a
+    non-canonical spelling and for names ending in LOCK_SUFFIX (never session data). -/
 def sessOp (op : SessOp) (cwd sp id : Str) : Option (List Access) :=
   match getFilePath cwd sp id with
   | none => none
   | some f =>
     some (match op with
-      | .exists_ => if endsWith f lockSuffix then [] else [⟨.stat, f⟩]
+      | .exists_ =>
+        if (f != sessionCanonical cwd sp id || endsWith f lockSuffix) = true then [] else [⟨.stat, f⟩]
       | .load => [⟨.openR, f⟩]
       | .save => [⟨.openW, f⟩]
       | .delete => [⟨.unlink, f⟩]
@@ -431,8 +440,10 @@ def sessionRequest (cwd storage : Str) (cookie : Option Str) (present : Bool)
     pure (e ++ r)
   | some id => do
     let e ← sessOp .exists_ cwd sp id
-    -- `_exists` answers False for a name ending in LOCK_SUFFIX without looking
-    if present && !endsWith (sessionFile cwd sp id) lockSuffix then
+    -- `_exists` answers False for a non-canonical spelling and for a name ending in LOCK_SUFFIX
+    -- without looking: such a cookie value is never adopted as the session's id
+    if present && (sessionFile cwd sp id == sessionCanonical cwd sp id) &&
+        !endsWith (sessionFile cwd sp id) lockSuffix then
       let r ← afterInit cwd sp id gen2 a
       pure (e ++ r)
     else
